@@ -453,11 +453,31 @@ def check_wrappers(case, rec):
                     f, v = lib(k, pos, _tags=tags)
                     results.append(np.concatenate([f, v]))
                 elif w in ("vario", "vario_dir"):
-                    fld = rs.standard_normal(n)
+                    # 1-3 stacked fields with NaN at different points per field
+                    nf = 1 + case["seed"] % 3
+                    fld = rs.standard_normal((nf, n))
+                    for m_ in range(nf):
+                        if n > 3:
+                            fld[m_, rs.randint(0, n)] = np.nan
+                    edges = np.linspace(0, 4, 6)
                     kw = {}
                     if w == "vario_dir" and dim > 1:
                         kw = dict(direction=np.eye(dim)[:2], angles_tol=0.5)
-                    r = lib(gs.vario_estimate, pos, fld, np.linspace(0, 4, 6), return_counts=True, _tags=tags, **kw)
+                    r = lib(gs.vario_estimate, pos, fld if nf > 1 else fld[0], edges, return_counts=True, _tags=tags, **kw)
+                    # the wrapper must return what the kernel returns for the same arrays
+                    est = kbuild.load("estimator", "installed")
+                    if kw:
+                        dn = np.eye(dim)[:2]
+                        from gstools.variogram.variogram import _separate_dirs_test
+
+                        kv, kcnt = est.directional(fld, edges, pos, dn, 0.5, -1.0, False, "m", None)
+                    else:
+                        kv, kcnt = est.unstructured(fld, edges, pos, "m", "e", None)
+                    require(
+                        np.array_equal(np.asarray(r[2]), np.asarray(kcnt).reshape(np.shape(r[2]))) and np.allclose(np.asarray(r[1]), np.asarray(kv).reshape(np.shape(r[1])), rtol=1e-13, atol=0, equal_nan=True),
+                        f"{w}: vario_estimate differs from the kernel evaluated on the same arrays (counts {np.asarray(r[2]).tolist()} vs {np.asarray(kcnt).tolist()})",
+                        dict(tags, kind="wrapper_vs_kernel"),
+                    )
                     results.append(np.concatenate([np.ravel(r[1]), np.ravel(r[2]).astype(float)]))
                 else:
                     fld = rs.standard_normal((n, 4))
